@@ -12,6 +12,7 @@ import (
 	"flag"
 	"fmt"
 	"os"
+	"os/exec"
 	"path/filepath"
 	"sort"
 	"strconv"
@@ -307,6 +308,13 @@ func cmdCheck(args []string) {
 		"notes":                    notes,
 		"explanation":              "every obligation (postcondition, call precondition, loop invariant init/step, variant, frame, safety at each index/slice/dereference/assertion, lemma) generated from the current source of the functions under contract that carry this property; an obligation counts as discharged only when a solver answered unsat",
 	}
+	if *tier == "thorough" && !*baseline && os.Getenv("GOVC_NO_SELFTEST") == "" {
+		// must-detect self-test of the checker: every seeded property-breaking
+		// change recorded for this property is applied to a scratch copy of the
+		// tree under check and has to make the quick check fail.  The outcome
+		// is evidence about the checker; it does not change the verdict on the tree.
+		cov["selftest_seeded_changes"] = selfTest(prop, *repo, vdir)
+	}
 	ev := map[string]interface{}{
 		"property_id": prop,
 		"tier":        *tier,
@@ -384,4 +392,72 @@ func (e *Engine) assumptions() []string {
 		"user callbacks and interface methods (Execute, handlers, Unmarshaler, ...) do not modify the parser's own data structures; their results are unconstrained",
 		"build configuration GOOS=linux, tags verif: optstyle_windows.go and termsize_windows.go are not part of the verified text",
 	}
+}
+
+// selfTest applies each seeded change of the property to a scratch copy of the
+// repository (outside /repo and /verif, removed afterwards) and runs the quick
+// check on it.
+func selfTest(prop, repo, vdir string) []map[string]interface{} {
+	var out []map[string]interface{}
+	dirs, _ := filepath.Glob(filepath.Join(vdir, "seeded", prop+"-*"))
+	sort.Strings(dirs)
+	self, err := os.Executable()
+	if err != nil {
+		return out
+	}
+	for _, d := range dirs {
+		patch := filepath.Join(d, "patch.diff")
+		if _, err := os.Stat(patch); err != nil {
+			continue
+		}
+		rec := map[string]interface{}{"id": filepath.Base(d)}
+		work, err := os.MkdirTemp("", "govc-selftest-")
+		if err != nil {
+			continue
+		}
+		func() {
+			defer os.RemoveAll(work)
+			wt := filepath.Join(work, "wt")
+			sv := filepath.Join(work, "v")
+			os.MkdirAll(sv, 0o755)
+			if b, err := exec.Command("rsync", "-a", "--exclude", ".git", repo+"/", wt+"/").CombinedOutput(); err != nil {
+				rec["skipped"] = "copy failed: " + firstLines(string(b), 1)
+				return
+			}
+			ap := exec.Command("git", "apply", patch)
+			ap.Dir = wt
+			if b, err := ap.CombinedOutput(); err != nil {
+				rec["skipped"] = "the change does not apply to the tree under check: " + firstLines(string(b), 1)
+				return
+			}
+			for _, f := range []string{"known_findings.json", "expected_obligations.json", "MANIFEST.json"} {
+				if b, err := os.ReadFile(filepath.Join(vdir, f)); err == nil {
+					os.WriteFile(filepath.Join(sv, f), b, 0o644)
+				}
+			}
+			cmd := exec.Command(self, "check", "-repo", wt, "-tier", "quick", prop)
+			cmd.Env = append(os.Environ(), "VERIF_DIR="+sv, "GOVC_NO_SELFTEST=1")
+			b, err := cmd.CombinedOutput()
+			detected := false
+			if ee, ok := err.(*exec.ExitError); ok && ee.ExitCode() == 1 && strings.Contains(string(b), "VIOLATION property="+prop) {
+				detected = true
+			}
+			rec["detected"] = detected
+			var obl []string
+			for _, l := range strings.Split(string(b), "\n") {
+				if strings.HasPrefix(l, "FAILED ") {
+					f := strings.Fields(l)
+					if len(f) > 1 && len(obl) < 6 {
+						obl = append(obl, f[1])
+					}
+				}
+			}
+			rec["failed_obligations"] = obl
+		}()
+		out = append(out, rec)
+		if v, ok := rec["detected"].(bool); ok && !v {
+			fmt.Printf("SELFTEST property=%s seeded change %s is NOT detected by this check\n", prop, rec["id"])
+		}
+	}
+	return out
 }
